@@ -1,2 +1,219 @@
-(* C19 (placeholder; theorems follow) *)
-From IB Require Import IO.Regex IO.CloudGlob.
+(* C19: cloud object JSONL round-trips; glob expansion follows the documented syntax.
+   This file holds ONLY the property theorems (each closed by `exact`) and their non-vacuity
+   examples. Strings are lists of Unicode code points (N). *)
+From Coq Require Import List NArith Bool String Ascii Sorted Permutation.
+From IB Require Import IO.Regex IO.CloudGlob Proofs.CloudGlobProofs Proofs.CloudGlobRoundtrip.
+Import ListNotations.
+Open Scope N_scope.
+
+Definition str (s : string) : list N := map N_of_ascii (list_ascii_of_string s).
+
+(* ---------- the regex produced for a pattern decides the documented syntax ---------- *)
+(* For every pattern and every key without a line feed: `Regex::new(glob_to_regex(p))` succeeds
+   (the text stays inside the modelled fragment) and `is_match(key)` is exactly the reference
+   matcher written from the documentation. *)
+Theorem c19_glob_regex_correct :
+  forall p s : list N, no_nl s = true ->
+    regex_is_match (glob_to_regex p) s = Some (glob_match p s).
+Proof. exact glob_regex_correct. Qed.
+
+Example c19_glob_regex_correct_ex :
+  no_nl (str "logs/a+b.jsonl") = true /\
+  glob_to_regex (str "logs/*+?.jsonl") = str "^logs/[^/]*\+.\.jsonl$" /\
+  regex_is_match (glob_to_regex (str "logs/*+?.jsonl")) (str "logs/a+b.jsonl") = Some true /\
+  glob_match (str "logs/*+?.jsonl") (str "logs/a+b.jsonl") = true /\
+  glob_match (str "logs/*+?.jsonl") (str "logs/x/a+b.jsonl") = false /\
+  glob_match (str "logs/**+?.jsonl") (str "logs/x/a+b.jsonl") = true /\
+  glob_match (str "logs/*+?.jsonl") (str "logs/aab.jsonl") = false.
+Proof. repeat split; vm_compute; reflexivity. Qed.
+
+(* the side condition cannot be dropped: the regex crate's `.` does not match a line feed, so
+   `?` and `**` (but not `*`) refuse a key character U+000A  -- known finding, open *)
+Theorem c19_glob_regex_newline_refuted :
+  exists p s : list N, no_nl s = false /\
+    regex_is_match (glob_to_regex p) s = Some false /\ glob_match p s = true.
+Proof.
+  exists [c_quest], [c_nl]. destruct glob_regex_newline_refuted as (H1 & H2 & _).
+  split; [reflexivity|]. split; assumption.
+Qed.
+
+(* the reference matcher IS the documented syntax: a key matches iff it is a concatenation of
+   one piece per pattern token, where a character stands for itself, `?` for any one character
+   ('/' included), `*` for any run without '/', `**` for any run *)
+Theorem c19_glob_match_is_documented_syntax :
+  forall p s : list N, glob_match p s = true <-> gmatches (glob_tokens p) s.
+Proof. intros p s. exact (tmatch_spec (glob_tokens p) s). Qed.
+
+Example c19_glob_match_is_documented_syntax_ex :
+  glob_tokens (str "a/***?+") = [GChar 97; GChar 47; GStarStar; GStar; GQuest; GChar 43] /\
+  gmatches (glob_tokens (str "*/?")) (str "ab/c").
+Proof.
+  split; [vm_compute; reflexivity|].
+  apply (proj1 (c19_glob_match_is_documented_syntax _ _)). vm_compute. reflexivity.
+Qed.
+
+(* the regex matcher of the model implements the usual language semantics of the fragment *)
+Theorem c19_regex_matcher_is_language :
+  forall (r : regex) (s : list N), rmatch r s = true <-> rmatches r s.
+Proof. exact rmatch_spec. Qed.
+
+Example c19_regex_matcher_is_language_ex :
+  parse (str "^a[^/]*\..$") = Some [ALit 97; ASegStar; ALit 46; AAny] /\
+  rmatches [ALit 97; ASegStar; ALit 46; AAny] (str "abc.d").
+Proof.
+  split; [vm_compute; reflexivity|].
+  apply (proj1 (c19_regex_matcher_is_language _ _)). vm_compute. reflexivity.
+Qed.
+
+(* ---------- listing by prefix never hides a match ---------- *)
+Theorem c19_prefix_sound :
+  forall p s : list N, glob_match p s = true -> prefix_ok (literal_prefix p) s = true.
+Proof. exact prefix_sound. Qed.
+
+(* the prefix handed to list_objects is a wildcard-free prefix of the pattern *)
+Theorem c19_prefix_is_literal :
+  forall p pre : list N, literal_prefix p = Some pre ->
+    exists rest, p = pre ++ rest /\ forallb (fun c => negb (is_wild c)) pre = true.
+Proof. exact literal_prefix_is_prefix. Qed.
+
+Example c19_prefix_sound_ex :
+  literal_prefix (str "data/2024-*/e.jsonl") = Some (str "data/2024-") /\
+  literal_prefix (str "*.jsonl") = None /\
+  literal_prefix (str "") = Some [] /\
+  literal_prefix (str "a.b") = Some (str "a.b") /\
+  glob_match (str "data/2024-*/e.jsonl") (str "data/2024-01/e.jsonl") = true /\
+  prefix_ok (literal_prefix (str "data/2024-*/e.jsonl")) (str "data/2024-01/e.jsonl") = true /\
+  prefix_ok (literal_prefix (str "data/2024-*/e.jsonl")) (str "data/2023-01/e.jsonl") = false.
+Proof. repeat split; vm_compute; reflexivity. Qed.
+
+(* ---------- expansion = the sorted list of exactly the matching keys ---------- *)
+Theorem c19_expand_spec :
+  forall (keys : list (list N)) (p : list N),
+    Forall (fun k => no_nl k = true) keys ->
+    expand (Some keys) p = Ok (expand_ref keys p) /\
+    StronglySorted key_le (expand_ref keys p) /\
+    (forall k, In k (expand_ref keys p) <-> In k keys /\ glob_match p k = true) /\
+    (NoDup keys -> NoDup (expand_ref keys p)).
+Proof.
+  intros keys p H. split; [exact (expand_is_ref keys p H)|exact (expand_ref_spec keys p)].
+Qed.
+
+Example c19_expand_spec_ex :
+  let keys := [str "logs/b.jsonl"; str "data/x.csv"; str "logs/sub/c.jsonl"; str "logs/a.jsonl"] in
+  Forall (fun k => no_nl k = true) keys /\
+  expand (Some keys) (str "logs/*.jsonl") = Ok [str "logs/a.jsonl"; str "logs/b.jsonl"] /\
+  expand (Some keys) (str "logs/**") =
+    Ok [str "logs/a.jsonl"; str "logs/b.jsonl"; str "logs/sub/c.jsonl"] /\
+  expand_required (Some keys) (str "nomatch") = Err NotFound.
+Proof.
+  cbv zeta. split; [repeat constructor|]. repeat split; vm_compute; reflexivity.
+Qed.
+
+(* every pattern is a valid glob: the only error is the store's (bucket missing) *)
+Theorem c19_expand_never_invalid :
+  forall (bucket : option (list (list N))) (p : list N),
+    match bucket with
+    | None => expand bucket p = Err NotFound
+    | Some keys => exists ks, expand bucket p = Ok ks
+    end.
+Proof. exact expand_outcome. Qed.
+
+(* key order is a total order and a sorted permutation is unique, hence whatever algorithm
+   `Vec<String>::sort` uses it returns the model's `sort_keys` *)
+Theorem c19_sorted_result_unique :
+  forall l l' : list (list N),
+    StronglySorted key_le l' -> Permutation l' l -> l' = sort_keys l.
+Proof. exact sort_keys_unique. Qed.
+
+Example c19_sorted_result_unique_ex :
+  sort_keys [str "b"; str "a/"; str "a"; str "B"; str "a."] =
+  [str "B"; str "a"; str "a."; str "a/"; str "b"].
+Proof. vm_compute. reflexivity. Qed.
+
+(* ---------- codec choice and round trip ---------- *)
+Theorem c19_cloud_codec_agree : forall key : list N, writer_codec key = reader_ext_codec key.
+Proof. exact codec_agree. Qed.
+
+(* the old defect witnesses: dot-file keys, and case variants *)
+Example c19_cloud_codec_agree_ex :
+  writer_codec (str ".gz") = Some Gzip /\ reader_ext_codec (str ".gz") = Some Gzip /\
+  writer_codec (str "dir/.GZ") = Some Gzip /\ writer_codec (str "a.gz/b") = None /\
+  writer_codec (str "x.jsonl.ZsT") = Some Zstd /\ writer_codec (str ".bz2") = Some Bzip2 /\
+  writer_codec (str "x.XZ") = Some Xz /\ writer_codec (str "x.jsonl") = None.
+Proof. repeat split; vm_compute; reflexivity. Qed.
+
+(* Records written under ANY key and read back are unchanged and in order, provided
+   (a) each codec's decoder inverts its encoder, and
+   (b) each record serialises to a one-line JSON document that deserialises to the record
+       (`line_ok`: first byte one of { [ double-quote - digit t f n, no raw LF / CR).
+   For a key without codec suffix the reader falls back to signature detection on the stored
+   bytes; (b) is what guarantees that the plain payload carries no signature. *)
+Theorem c19_cloud_roundtrip :
+  forall (R : Type) (ser : R -> list N) (de : list N -> option R)
+         (enc : codec -> list N -> list N) (dec : codec -> list N -> option (list N)),
+    (forall c b, dec c (enc c b) = Some b) ->
+    forall (st : store) (key : list N) (rs : list R),
+      Forall (record_ok R ser de) rs ->
+      cloud_read de dec (cloud_write ser enc st key rs) key = Ok rs.
+Proof. exact cloud_roundtrip. Qed.
+
+(* toy instance: records are Booleans printed as true / false; a codec prepends its signature *)
+Definition ex_ser (b : bool) : list N := if b then str "true" else str "false".
+Definition ex_de (l : list N) : option bool :=
+  if list_eqb l (str "true") then Some true
+  else if list_eqb l (str "false") then Some false else None.
+Definition ex_magic (c : codec) : list N :=
+  match c with Gzip => magic_gzip | Zstd => magic_zstd | Bzip2 => magic_bzip2 | Xz => magic_xz end.
+Definition ex_enc (c : codec) (b : list N) : list N := ex_magic c ++ b.
+Fixpoint ex_strip (pre s : list N) : option (list N) :=
+  match pre, s with
+  | [], _ => Some s
+  | a :: pre', b :: s' => if a =? b then ex_strip pre' s' else None
+  | _ :: _, [] => None
+  end.
+Definition ex_dec (c : codec) (b : list N) : option (list N) := ex_strip (ex_magic c) b.
+
+Example c19_cloud_roundtrip_ex :
+  (forall c b, ex_dec c (ex_enc c b) = Some b) /\
+  Forall (record_ok bool ex_ser ex_de) [true; false; true] /\
+  cloud_read ex_de ex_dec (cloud_write ex_ser ex_enc [] (str ".gz") [true; false; true]) (str ".gz")
+    = Ok [true; false; true] /\
+  get (cloud_write ex_ser ex_enc [] (str ".gz") [true]) (str ".gz")
+    = Some (magic_gzip ++ str "true" ++ [10]) /\
+  cloud_read ex_de ex_dec (cloud_write ex_ser ex_enc [] (str "plain") [false]) (str "plain")
+    = Ok [false].
+Proof.
+  split; [intros [] b; reflexivity|].
+  split; [repeat constructor|].
+  repeat split; vm_compute; reflexivity.
+Qed.
+
+(* a write leaves every other object as it was *)
+Theorem c19_cloud_write_frame :
+  forall (R : Type) (ser : R -> list N) (de : list N -> option R)
+         (enc : codec -> list N -> list N) (dec : codec -> list N -> option (list N))
+         (st : store) (key : list N) (rs : list R) (k2 : list N),
+    k2 <> key ->
+    cloud_read de dec (cloud_write ser enc st key rs) k2 = cloud_read de dec st k2.
+Proof. exact cloud_write_frame. Qed.
+
+(* reading by glob returns the concatenation, in sorted key order, of exactly the objects
+   whose keys match the pattern *)
+Theorem c19_read_glob_concat :
+  forall (R : Type) (de : list N -> option R) (dec : codec -> list N -> option (list N))
+         (st : store) (p : list N) (f : list N -> list R),
+    st <> [] ->
+    Forall (fun k => no_nl k = true) (map fst st) ->
+    (forall k, In k (map fst st) -> glob_match p k = true -> cloud_read de dec st k = Ok (f k)) ->
+    read_glob de dec st p = Ok (flat_map f (expand_ref (map fst st) p)).
+Proof. exact read_glob_concat. Qed.
+
+Example c19_read_glob_concat_ex :
+  let st := cloud_write ex_ser ex_enc
+              (cloud_write ex_ser ex_enc
+                 (cloud_write ex_ser ex_enc [] (str "d/b.gz") [true])
+                 (str "d/a") [false; false])
+              (str "e/c") [true; true] in
+  read_glob ex_de ex_dec st (str "d/*") = Ok [false; false; true] /\
+  read_glob ex_de ex_dec st (str "**") = Ok [false; false; true; true; true].
+Proof. cbv zeta. split; vm_compute; reflexivity. Qed.
